@@ -846,6 +846,7 @@ class C01(Prop):
             g.leaf()
         if rng.random() < 0.5:
             g.arr()
+        self.motifs(rng, g, cfg)
         n_nodes = rng.randint(3, 22)
         kinds = self.kinds(cfg, rng)
         made = 0
@@ -928,6 +929,9 @@ class C01(Prop):
         add_faults(g, events, rng, cfg)
         return {"prop": self.id, "cfg": cfg, "events": events}
 
+    def motifs(self, rng, g, cfg):
+        pass
+
     def kinds(self, cfg, rng):
         return [("unary", 3), ("binary", 6), ("reduce", 2), ("view", 4), ("adv", 1), ("matmul", 1), ("einsum", 1), ("where", 1), ("clip", 0 if cfg["exact"] else 1),
                 ("join", 1), ("seq", 1), ("cumsum", 1), ("power", 1)]
@@ -996,6 +1000,27 @@ class C06(C01):
 
     def kinds(self, cfg, rng):
         return [("unary", 2), ("binary", 5), ("reduce", 2), ("view", rng.choice([8, 12])), ("adv", 0.5), ("matmul", 1), ("einsum", 1.5), ("where", 0.5), ("join", 0.5), ("seq", 0.5)]
+
+    def motifs(self, rng, g, cfg):
+        """layout motif: a Fortran-ordered base whose flattening is a view only *because of* that
+        layout (x.T.reshape(-1)), and a consumer whose contribution to x.grad is a fresh array in
+        another layout (matmul / einsum): the stored gradient has to mirror x's layout for the
+        view's gradient to be a view of it"""
+        if rng.random() >= 0.3:
+            return
+        keep = cfg.get("f_order_p")
+        cfg["f_order_p"] = 1.0
+        try:
+            x = g.leaf(shape=(rng.randint(2, 3), rng.randint(2, 3)), dtype="f8", constant=None)
+        finally:
+            cfg["f_order_p"] = keep
+        v1 = g._emit_op("transpose", [{"t": x}], {"axes": None, "T": rng.random() < 0.5}, view_src=x)
+        if v1 is not None:
+            g._emit_op(rng.choice(["ravel", "reshape"]), [{"t": v1}], {"shape": [-1], "splat": False}, view_src=v1)
+        if rng.random() < 0.7:
+            g.op_matmul(x)
+        else:
+            g.op_einsum(x)
 
     def post_backward(self, rng, handles):
         """the read schedule: .grad reads in random order and repetition, interleaved with drops and gc"""
